@@ -914,6 +914,40 @@ def _hoist_walrus(tree):
         loop = ast.For(target=g.target, iter=g.iter, body=[inner], orelse=[], type_comment=None)
         return ast.fix_missing_locations(ast.copy_location(loop, st))
 
+    def comp_walrus(tree_):
+        """`[n for x in S if (n := x.a) is not None and n.b]`  is  `[x.a for x in S if x.a is not None and x.a.b]` - an assignment expression in a
+        comprehension whose value is a call-free expression over the loop variable is replaced, with its later reads, by that expression"""
+        class C(ast.NodeTransformer):
+            def _comp(self, n):
+                n = self.generic_visit(n)
+                nes = [x for g in n.generators for c in g.ifs for x in ast.walk(c) if isinstance(x, ast.NamedExpr) and isinstance(x.target, ast.Name)]
+                for ne in nes:
+                    if has_call(ne.value) or any(isinstance(y, ast.NamedExpr) for y in ast.walk(ne.value)):
+                        continue
+                    nm = ne.target.id
+                    if sum(1 for x in ast.walk(n) if isinstance(x, ast.NamedExpr) and isinstance(x.target, ast.Name) and x.target.id == nm) != 1:
+                        continue
+                    if any(isinstance(g.target, ast.Name) and g.target.id == nm for g in n.generators):
+                        continue
+                    # the assignment must be the first thing its filter evaluates that mentions the name (reads to its left would see an older value)
+                    first_if = next(c for g in n.generators for c in g.ifs if any(x is ne for x in ast.walk(c)))
+                    order = [x for x in ast.walk(first_if) if (isinstance(x, ast.Name) and x.id == nm and isinstance(x.ctx, ast.Load)) or x is ne]
+                    val = ne.value
+
+                    class S(ast.NodeTransformer):
+                        def visit_NamedExpr(self, x):
+                            if x is ne:
+                                return _c.deepcopy(val)
+                            return self.generic_visit(x)
+
+                        def visit_Name(self, x):
+                            return _c.deepcopy(val) if x.id == nm and isinstance(x.ctx, ast.Load) else x
+                    n = S().visit(n)
+                    count[0] += 1
+                return ast.fix_missing_locations(n)
+            visit_ListComp = visit_SetComp = visit_GeneratorExp = visit_DictComp = _comp
+        return C().visit(tree_)
+
     def split_and(st):
         """`if A and (n := E) > 0: S` (no else)  is  `if A: if (n := E) > 0: S` - the assignment expression then leads its own test"""
         if not (isinstance(st, ast.If) and not st.orelse and isinstance(st.test, ast.BoolOp) and isinstance(st.test.op, ast.And)):
@@ -975,6 +1009,7 @@ def _hoist_walrus(tree):
                 res.append(ast.fix_missing_locations(st))
             count[0] += len(picked)
         return res
+    tree = comp_walrus(tree)
     tree.body = block(tree.body)
     return tree, count[0]
 
@@ -1322,6 +1357,23 @@ def _inline_named_constants(trees):
     return {k: v for k, v in report.items() if v}
 
 
+def _fold_fstrings(node):
+    """f"{'>='} x": a formatted constant without conversion / format spec is part of the literal text (in place, for a whole subtree)"""
+    for n in ast.walk(node):
+        if isinstance(n, ast.JoinedStr):
+            out = []
+            for v in n.values:
+                if isinstance(v, ast.FormattedValue) and isinstance(v.value, ast.Constant) and isinstance(v.value.value, (str, int)) and not isinstance(v.value.value, bool) \
+                        and v.conversion == -1 and v.format_spec is None:
+                    v = ast.Constant(value=str(v.value.value))
+                if isinstance(v, ast.Constant) and out and isinstance(out[-1], ast.Constant):
+                    out[-1] = ast.Constant(value=str(out[-1].value) + str(v.value))
+                else:
+                    out.append(v)
+            n.values = out
+    return node
+
+
 def _split_tuple_assignments(tree):
     """`a, b = x, y` with independent sides is the same as `a = x; b = y` (no target occurs in a later right-hand side): the
     parallel form is split so that every store has its own value expression"""
@@ -1400,6 +1452,15 @@ def _split_tuple_assignments(tree):
                     gen = ast.comprehension(target=ast.Name(id=var, ctx=ast.Store()), iter=xs, ifs=[] if n.func.id == "map" else [applied], is_async=0)
                     elt = applied if n.func.id == "map" else ast.Name(id=var, ctx=ast.Load())
                     return ast.fix_missing_locations(ast.copy_location(ast.GeneratorExp(elt=elt, generators=[gen]), n))
+            # sorted(list(X)) / sum(tuple(X)) / any(list(X)) ...: a consumer that only iterates its argument sees the same elements in X itself
+            if isinstance(n.func, ast.Name) and n.func.id in ("sorted", "sum", "min", "max", "any", "all", "set", "frozenset", "tuple", "list", "enumerate", "dict") \
+                    and len(n.args) >= 1 and isinstance(n.args[0], ast.Call) and isinstance(n.args[0].func, ast.Name) and n.args[0].func.id in ("list", "tuple") \
+                    and len(n.args[0].args) == 1 and not n.args[0].keywords and not isinstance(n.args[0].args[0], ast.Starred) \
+                    and not (n.func.id in ("min", "max") and len(n.args) > 1):
+                n.args[0] = n.args[0].args[0]
+            # operator.index(x) is x (for the integers it accepts)
+            if isinstance(n.func, ast.Attribute) and n.func.attr == "index" and isinstance(n.func.value, ast.Name) and n.func.value.id in op_mods and len(n.args) == 1 and not n.keywords:
+                return n.args[0]
             if isinstance(n.func, ast.Name) and n.func.id == "list" and len(n.args) == 1 and not n.keywords and isinstance(n.args[0], ast.GeneratorExp):
                 g_ = n.args[0]
                 return ast.fix_missing_locations(ast.copy_location(ast.ListComp(elt=g_.elt, generators=g_.generators), n))
@@ -1498,7 +1559,7 @@ def _split_tuple_assignments(tree):
                 app = ast.Expr(value=ast.Call(func=ast.Attribute(value=ast.Name(id=name, ctx=ast.Load()), attr="append", ctx=ast.Load()), args=[elt], keywords=[]))
                 test = conds[0] if len(conds) == 1 else ast.BoolOp(op=ast.And(), values=conds)
                 out.append(ast.copy_location(ast.If(test=test, body=[app], orelse=[]), n))
-            return [ast.fix_missing_locations(o) for o in out]
+            return [ast.fix_missing_locations(_fold_fstrings(o)) for o in out]
 
         def visit_Compare(self, n):
             n = self.generic_visit(n)
